@@ -161,7 +161,7 @@ def run(ctx):
     ctx.extra["cases_model_checked"] = mc.distinct
     ctx.sample({"features": [G.gff3_line(f) for f in cases[-1]["feats"]], "criteria": cases[-1]["crits"], "expected_outputs": cases[-1]["exp"]})
     # D2
-    models = [I.random_model(ctx.rng) for _ in range(2000 if thorough else 250)]
+    models = [I.random_model(ctx.rng) for _ in range(2000 if thorough else 600)]
     exp = I.oracle(ctx, models)
     for k, (m, e) in enumerate(zip(models, exp)):
         check_model(ctx, m, e, k)
